@@ -569,6 +569,37 @@ def directed_streams(ctx, rng):
         run_sequence(ctx, rng, rng.randint(1, 4), frac=Fraction(rng.choice((1, 2, 3, 5, 7, 8, 9)), 10), est_p=1)
 
 
+def estimate_edge_stream(ctx, rng, n):
+    """estimate_liquidity / estimate_amount with a range bound within one tick of a price that is not on a tick: estimate_liquidity decides
+    below / inside / above by the floor tick of the pool's own orientation (`current_tick <= lower_tick` is "below"), which is not
+    mirror-symmetric there: with the price f ticks above the lower bound one orientation answers "all token0", the other "inside".
+    The difference is at most (1 tick / range width) of the value.  Measured, not compared (ASSUMPTIONS)."""
+    from demeter.uniswap._typing import PositionInfo
+    diff = tot = 0
+    for _ in range(n):
+        P = Pair(rng, frac=Fraction(rng.choice((2, 5, 8)), 10))
+        t, b = P.A.tick, rng.randint(2, 60) * P.sp
+        lo, up = rng.choice(((t, t + b), (t - 1, t + b), (t - b, t + 1), (t - b, t + 2)))
+        value = Decimal(rng.randint(1, 10 ** 7)) / 100
+        res = []
+        for w, (l, u) in ((P.A, (lo, up)), (P.B, (-up, -lo))):
+            try:
+                with U.guard("estimate_liquidity"):
+                    liq, t0, t1 = w.market.estimate_liquidity(value, PositionInfo(l, u))
+                base, quote = (t1, t0) if w.pool.is_token0_quote else (t0, t1)
+                res.append((Fraction(base) * Fraction(P.A.price), Fraction(quote)))
+            except Exception as e:  # noqa: BLE001
+                res.append(type(e).__name__)
+        tot += 1
+        if isinstance(res[0], str) or isinstance(res[1], str):
+            diff += res[0] != res[1]
+        elif any(abs(x - y) > TOL_EST * Fraction(value) for x, y in zip(*res)):
+            diff += 1
+        ctx.case(f"estimate_liquidity:bound-within-a-tick:{P.dq}/{P.db}:{P.fee}:measured")
+    ctx.note("estimate_bound_within_a_tick_differs", f"{diff}/{tot} (price not on a tick, a range bound within one tick of it: the floor tick of the pool's "
+             f"orientation decides the regime in estimate_liquidity; measured, outside the compared stream)")
+
+
 def midpoint_stream(ctx, rng, n):
     """prices whose tick lies on the midpoint of a spacing cell: the float floor in pool orientation may round differently"""
     diff = 0
@@ -592,6 +623,7 @@ def run(ctx: Ctx):
     for i in range(ctx.scale(600, 12000)):
         run_sequence(ctx, rng, rng.randint(2, 9))
     directed_streams(ctx, rng)
+    estimate_edge_stream(ctx, rng, ctx.scale(60, 1500))
     midpoint_stream(ctx, rng, ctx.scale(40, 1000))
     ctx.impl_traces = ctx.evaluations
     # the views of both orientations against the model (bit-exact: the driver runs the 35-digit Decimal semantics)
